@@ -5,3 +5,20 @@ Inductive tok := TZ (z : Z) | TF (f : float).
 Definition tN (n : N) : tok := TZ (Z.of_N n).
 Definition tB (b : bool) : tok := TZ (if b then 1 else 0)%Z.
 Definition zN (z : Z) : N := Z.to_N z.
+
+(** bit-level equality of tokens (NaNs are canonicalised by the harness; zeros keep their sign) *)
+Definition feqb (a b : float) : bool :=
+  if PrimFloat.is_nan a then PrimFloat.is_nan b
+  else PrimFloat.eqb a b && (negb (PrimFloat.is_zero a) || PrimFloat.eqb (1 / a) (1 / b))%float.
+Definition tok_eqb (a b : tok) : bool :=
+  match a, b with
+  | TZ x, TZ y => Z.eqb x y
+  | TF x, TF y => feqb x y
+  | _, _ => false
+  end.
+Fixpoint toks_eqb (a b : list tok) : bool :=
+  match a, b with
+  | [], [] => true
+  | x :: a', y :: b' => tok_eqb x y && toks_eqb a' b'
+  | _, _ => false
+  end.
